@@ -95,23 +95,70 @@ fn check_type(ctx: &Ctx, e: &vzoo::c08types::TypeEntry, doc: &Value, cn: &Cn, sa
     }
     let v = Validator { depth_limit: 40 };
 
-    // ---- oracle 1: annotations present in the source are present in the document
+    // ---- oracle 1: annotations present in the source are present in the document - as often as in the
+    // source. Both sides are walked from the type's schema through every definition reachable by $ref
+    // (each definition once), so an annotation that survives at one place cannot stand in for the
+    // same annotation lost at another.
     {
+        fn reach(v: &Value, root: &Value, prefix: &str, seen: &mut BTreeSet<String>, out: &mut Vec<String>) {
+            annotations_shallow(v, root, prefix, seen, out);
+        }
+        fn annotations_shallow(v: &Value, root: &Value, prefix: &str, seen: &mut BTreeSet<String>, out: &mut Vec<String>) {
+            match v {
+                Value::Object(m) => {
+                    if let Some(Value::String(r)) = m.get("$ref") {
+                        if let Some(name) = r.strip_prefix(prefix) {
+                            if seen.insert(name.to_string()) {
+                                let target = root.pointer(&format!("{}{}", prefix.trim_start_matches('#'), name)).cloned().unwrap_or(Value::Null);
+                                annotations_shallow(&target, root, prefix, seen, out);
+                            }
+                        }
+                    }
+                    for (k, x) in m {
+                        if ANNOTATIONS.contains(&k.as_str()) || k.starts_with("x-") {
+                            let plausible = match k.as_str() {
+                                "title" | "description" | "format" => x.is_string(),
+                                "nullable" | "deprecated" | "readOnly" | "writeOnly" => x.is_boolean(),
+                                _ => true,
+                            };
+                            if plausible {
+                                out.push(format!("{k}={x}"));
+                            }
+                        }
+                        if k != "definitions" {
+                            annotations_shallow(x, root, prefix, seen, out);
+                        }
+                    }
+                }
+                Value::Array(a) => {
+                    for x in a {
+                        annotations_shallow(x, root, prefix, seen, out);
+                    }
+                }
+                _ => {}
+            }
+        }
+        let count = |v: &Vec<String>| {
+            let mut m: std::collections::BTreeMap<String, usize> = Default::default();
+            for a in v {
+                *m.entry(a.clone()).or_insert(0) += 1;
+            }
+            m
+        };
         let mut a_src = vec![];
-        annotations(&src_root, &mut a_src);
+        reach(&src_schema, &src_root, "#/definitions/", &mut BTreeSet::new(), &mut a_src);
+        let c_src = count(&a_src);
         for (side, s_doc) in [("request_body", &req_schema), ("response_body", &resp_schema)] {
             let mut a_doc = vec![];
-            annotations(s_doc, &mut a_doc);
-            // everything reachable through refs
-            annotations(&doc["components"]["schemas"], &mut a_doc);
-            let have: BTreeSet<&String> = a_doc.iter().collect();
-            let missing: Vec<&String> = a_src.iter().filter(|a| !have.contains(a)).collect();
+            reach(s_doc, doc, "#/components/schemas/", &mut BTreeSet::new(), &mut a_doc);
+            let c_doc = count(&a_doc);
+            let missing: Vec<String> = c_src.iter().filter(|(a, n)| c_doc.get(*a).copied().unwrap_or(0) < **n).map(|(a, n)| format!("{a} ({} of {n})", c_doc.get(a).copied().unwrap_or(0))).collect();
             if !missing.is_empty() {
                 let kinds: BTreeSet<String> = missing.iter().map(|m| m.split('=').next().unwrap().to_string()).collect();
                 ctx.report(Violation {
                     sig: json!({"kind":"annotation_lost","keywords": kinds}),
                     case: case(None, side),
-                    expected: json!({"annotations_of_the_source_schema": a_src}),
+                    expected: json!({"annotations_of_the_source_schema": c_src}),
                     observed: json!({"missing_in_document": missing}),
                 });
             }
@@ -268,7 +315,7 @@ fn main() {
         "evaluations": cn.instances.load(Ordering::Relaxed),
         "distinct_nontrivial": cn.nontrivial.load(Ordering::Relaxed),
         "programs": cn.types.load(Ordering::Relaxed),
-        "rule": "types = every type expression of depth <=1 (thorough <=2) over 18 scalars, 42 named types (structs with serde/schemars attributes, manual schemas with exclusive bounds / multipleOf / const / not / uniqueItems / min-maxProperties / x- extensions / examples, enums in all four serde representations incl. untagged with overlapping alternatives, recursive types, newtype, unit) and 4 containers, each mounted as request and response body of a real endpoint (quick: plus every container-in-container shape over 5 element types); three of the named types are also the types of query and path parameters of one more endpoint. S_src = schemars root schema under SchemaSettings::openapi3(); S_doc = what the real openapi().json() contains. Oracle 1: every annotation (title, description, format, default, nullable, deprecated, readOnly/writeOnly, example, x-*) of S_src occurs in S_doc. Oracle 2: RefSchema(S_src, i) == RefSchema(S_doc, i) for the canonical valid instance and all single (thorough and small types: all double) point-mutations of it over the schema's own constraint atoms. distinct_nontrivial = types for which at least one mutated instance was rejected by a constraint.",
+        "rule": "types = every type expression of depth <=1 (thorough <=2) over 18 scalars, 46 named types (structs with serde/schemars attributes, manual schemas with exclusive bounds / multipleOf / const / not / uniqueItems / min-maxProperties / x- extensions / examples, enums in all four serde representations incl. untagged with overlapping alternatives, recursive types, newtype, unit) and 4 containers, each mounted as request and response body of a real endpoint (quick: plus every container-in-container shape over 5 element types); three of the named types are also the types of query and path parameters of one more endpoint. S_src = schemars root schema under SchemaSettings::openapi3(); S_doc = what the real openapi().json() contains. Oracle 1: every annotation (title, description, format, default, nullable, deprecated, readOnly/writeOnly, example, x-*) of S_src occurs in S_doc. Oracle 2: RefSchema(S_src, i) == RefSchema(S_doc, i) for the canonical valid instance and all single (thorough and small types: all double) point-mutations of it over the schema's own constraint atoms. distinct_nontrivial = types for which at least one mutated instance was rejected by a constraint.",
         "types": entries.len(), "types_mounted": mounted.len(), "types_without_canonical_instance": cn.no_canonical.load(Ordering::Relaxed),
         "valid_instances": cn.valid_instances.load(Ordering::Relaxed),
         "oracle_audit": oracle_audit,
